@@ -518,3 +518,107 @@ Proof.
   specialize (H (t, fs) (alookup_In _ _ _ E)). cbn [fst snd] in H.
   rewrite forallb_forall in H. apply H. apply memb_In. exact Hf.
 Qed.
+
+(* ---------------------------------------------------------------- paths given by their segments, of any length *)
+
+(* get / set on the path spelled by a list of dot-free segments, however long: get is the walk over the
+   segments, set assigns the last name on what the walk over all the others reaches *)
+Theorem get_by_segments sch h root segs :
+  segs <> [] -> forallb dotfreeb segs = true ->
+  get sch h root (join_dot segs) = walk sch h (VRef root) segs.
+Proof. intros Hne Hd. unfold get. rewrite (split_join segs Hne Hd). reflexivity. Qed.
+
+Theorem set_by_segments sch h root pre last v :
+  forallb dotfreeb pre = true -> dotfreeb last = true ->
+  set sch h root (join_dot (pre ++ [last])) v = assign sch h (walk sch h (VRef root) pre) last v.
+Proof.
+  intros Hp Hl. rewrite set_unfold, set_target_walk.
+  assert (E : split_dot (join_dot (pre ++ [last])) = pre ++ [last]).
+  { apply split_join; [destruct pre; discriminate|].
+    rewrite forallb_app, Hp. cbn [forallb]. rewrite Hl. reflexivity. }
+  rewrite path_segments in E. apply app_inj_tail in E. destruct E as [-> ->]. reflexivity.
+Qed.
+
+Lemma set_parts_cons f rest : dotfreeb f = true ->
+  set_prefix (f ++ String dot rest)%string = f :: set_prefix rest /\
+  set_last (f ++ String dot rest)%string = set_last rest.
+Proof.
+  intros Hf. pose proof (path_segments (f ++ String dot rest)%string) as E.
+  rewrite split_dot_app, (split_dotfree f Hf), (path_segments rest) in E.
+  change ([f] ++ set_prefix rest ++ [set_last rest]) with ((f :: set_prefix rest) ++ [set_last rest]) in E.
+  apply app_inj_tail in E. destruct E as [E1 E2]. split; congruence.
+Qed.
+
+(* the same assignment described from the other end: peel off the FIRST segment, take that one step, and
+   set the rest of the path on the structure reached (AttributeError, nothing modified, when the step does not
+   reach a structure).  A set that recurses this way and one that resolves the whole prefix first are the
+   same function of (schema, heap, path) for paths of every length; only the call depth differs. *)
+Theorem set_peel_first sch h root f rest v :
+  dotfreeb f = true ->
+  set sch h root (f ++ String dot rest)%string v =
+  match step sch h (VRef root) f with
+  | VRef o => set sch h o rest v
+  | _ => (h, Some EAttribute)
+  end.
+Proof.
+  intros Hf. rewrite set_unfold, set_target_walk.
+  destruct (set_parts_cons f rest Hf) as [-> ->]. cbn [walk].
+  destruct (step sch h (VRef root) f) as [|p|o] eqn:E.
+  - reflexivity.
+  - destruct (set_prefix rest); reflexivity.
+  - rewrite set_unfold, set_target_walk. reflexivity.
+Qed.
+
+(* ---------------------------------------------------------------- reserved UIMA names: self / type *)
+
+Lemma alookup_declared t d : alookup t (declared d) = option_map (map accessor) (alookup t d).
+Proof.
+  unfold declared. induction d as [|[k fs] r IH]; cbn [map alookup fst snd option_map]; [reflexivity|].
+  destruct (String.eqb t k); [reflexivity|exact IH].
+Qed.
+
+Lemma accessor_not_reserved f : accessor f <> "type" /\ accessor f <> "self".
+Proof.
+  unfold accessor. destruct (String.eqb f "self") eqn:E1; cbn [orb].
+  - apply String.eqb_eq in E1. subst f. split; discriminate.
+  - destruct (String.eqb f "type") eqn:E2.
+    + apply String.eqb_eq in E2. subst f. split; discriminate.
+    + apply String.eqb_neq in E1. apply String.eqb_neq in E2. split; assumption.
+Qed.
+
+Lemma memb_accessor_reserved l :
+  memb "type" (map accessor l) = false /\ memb "self" (map accessor l) = false.
+Proof.
+  induction l as [|a r [IH1 IH2]]; cbn [map memb]; [split; reflexivity|].
+  rewrite IH1, IH2. destruct (accessor_not_reserved a) as [H1 H2].
+  split; rewrite orb_false_r; apply String.eqb_neq; intros C; [apply H1|apply H2]; symmetry; exact C.
+Qed.
+
+(* whatever features a type system declares -- including features declared as "self" / "type", which become
+   self_ / type_ --, the names "self" and "type" themselves are features of no type *)
+Theorem reserved_not_feature d t :
+  is_feature (declared d) t "type" = false /\ is_feature (declared d) t "self" = false.
+Proof.
+  unfold is_feature. rewrite alookup_declared.
+  destruct (alookup t d); cbn [option_map]; [apply memb_accessor_reserved|split; reflexivity].
+Qed.
+
+(* so a path segment "type" / "self" reads None from every structure, and as a last name it is refused with
+   AttributeError and nothing modified: the structure's own `type` attribute is out of reach of paths *)
+Theorem reserved_segment d h cur v :
+  step (declared d) h cur "type" = VNone /\ step (declared d) h cur "self" = VNone /\
+  assign (declared d) h cur "type" v = (h, Some EAttribute) /\
+  assign (declared d) h cur "self" v = (h, Some EAttribute).
+Proof.
+  destruct cur as [|p|o]; cbn [step assign]; try (repeat split; reflexivity).
+  destruct (hget o h) as [ob|]; [|repeat split; reflexivity].
+  destruct (reserved_not_feature d (o_type ob)) as [-> ->]. repeat split; reflexivity.
+Qed.
+
+(* while the accessor name of every declared feature is a feature *)
+Theorem accessor_feature d t fs f :
+  alookup t d = Some fs -> In f fs -> is_feature (declared d) t (accessor f) = true.
+Proof.
+  intros Ht Hf. unfold is_feature. rewrite alookup_declared, Ht. cbn [option_map].
+  apply memb_In, in_map, Hf.
+Qed.
